@@ -414,6 +414,15 @@ fn specs_two(thorough: bool) -> Vec<QSpec> {
             v.push(QSpec::two(k, On::None, *wh, Form::Cols));
         }
     }
+    if !thorough {
+        // quick: the key-equality WHEREs (index scans under a join when the column is indexed) with the plain equi-join only
+        for wh in [Wh::LKey, Wh::RKey] {
+            for k in KINDS_ON {
+                v.push(QSpec::two(k, On::Eq, wh, Form::Cols));
+            }
+            v.push(QSpec::two(Kind::Comma, On::None, wh, Form::Cols));
+        }
+    }
     // aliases, self join, SELECT *
     for form in [Form::Alias, Form::SelfAlias, Form::Star, Form::StarAlias] {
         for k in KINDS_ON {
